@@ -3,7 +3,7 @@
 From Coq Require Import Strings.String Strings.Byte.
 From Coq Require Import List Arith NArith ZArith Bool.
 From PV Require Import Base.Bytes Base.Outcome Base.KV Aol.Model Did.Model Pnft.Model Bank.Model Chain.Model.
-From PV Require Generated.GenSchema.
+From PV Require Generated.GenSchema Generated.GenApp.
 Import ListNotations.
 
 (** a one-letter address string decodes to the one-byte address with that letter; "-" (pattern for an empty field)
@@ -77,3 +77,15 @@ Theorem keepers_stateless : forallb keeper_field_stateless GenSchema.keeper_fiel
 Proof. vm_compute. reflexivity. Qed.
 Theorem keepers_present : (4 <=? length GenSchema.keeper_fields)%nat = true.
 Proof. vm_compute. reflexivity. Qed.
+
+(** the ante handler chain of app/ante.go is the one the model's [ante] abstracts: validation of the messages, fee
+    deduction from the fee payer, signature count and verification against the required signers, sequence increment *)
+Definition modelled_ante_chain : list bytes :=
+  [b "ante.NewSetUpContextDecorator"; b "ante.NewExtensionOptionsDecorator"; b "ante.NewValidateBasicDecorator";
+   b "ante.NewTxTimeoutHeightDecorator"; b "ante.NewValidateMemoDecorator"; b "ante.NewConsumeGasForTxSizeDecorator";
+   b "ante.NewDeductFeeDecorator"; b "ante.NewSetPubKeyDecorator"; b "ante.NewValidateSigCountDecorator";
+   b "ante.NewSigGasConsumeDecorator"; b "ante.NewSigVerificationDecorator"; b "ante.NewIncrementSequenceDecorator";
+   b "ibcante.NewRedundantRelayDecorator"].
+Theorem ante_chain_as_modelled : GenApp.ante_decorators = modelled_ante_chain.
+Proof. vm_compute. reflexivity. Qed.
+Print Assumptions ante_chain_as_modelled.
